@@ -773,6 +773,26 @@ def check_dir(case, rec):
         want = o if nd > 1 else (o_v[0], o_c[0])
         # the wrapper decides "separated" on its own unit vectors: allow for rounding
         _classify_dir(rec, case, "vario_estimate", res[1], res[2], want, o_alt, margin >= -1e-9, nd, tags)
+        # the same directions through the documented `angles` keyword: azimuth from +x counter-clockwise (and polar angle from +z in 3-D)
+        if dim in (2, 3) and case.get("use_angles", True):
+            if dim == 2:
+                ang = [math.atan2(u[1], u[0]) for u in unit]
+                back = [[math.cos(a), math.sin(a)] for a in ang]
+            else:
+                ang = [[math.atan2(u[1], u[0]), math.acos(max(-1.0, min(1.0, u[2])))] for u in unit]
+                back = [[math.cos(a) * math.sin(t), math.sin(a) * math.sin(t), math.cos(t)] for a, t in ang]
+            _, _, info_a = ov.directional(fields, edges, pos, back, tol, bw, est)
+            if not (info_a["near_angle"] or info_a["near_band"]):
+                o_av, o_ac, _ = ov.directional(fields, edges, pos, back, tol, bw, est)
+                res_a = lib(gs.vario_estimate, pos, fields, list(edges), estimator=est, angles=ang if nd > 1 else ang[0],
+                            angles_tol=tol, bandwidth=bw, return_counts=True, _tags=dict(tags, api="angles"))
+                rec.label("angles_keyword")
+                want_a = (o_av, o_ac) if nd > 1 else (o_av[0], o_ac[0])
+                alt_a = None
+                if o_alt is not None:
+                    a_v2, a_c2, _ = ov.directional(fields, edges, pos, back, tol, bw, est, zero_dist_first_only=True)
+                    alt_a = (a_v2, a_c2)
+                _classify_dir(rec, case, "vario_estimate(angles=)", res_a[1], res_a[2], want_a, alt_a, margin >= -1e-9, nd, tags)
     _nontrivial(rec, case, n, info, True)
 
 
